@@ -313,6 +313,11 @@ class Models:
         R(["num::saturating_add"], lambda ex, st, fr, c, a, d, r: VInt(z3.If(a[0].t + a[1].t > int_range(a[0].ty)[1], int_range(a[0].ty)[1], a[0].t + a[1].t), a[0].ty))
         R(["num::checked_add"], lambda ex, st, fr, c, a, d, r: sym_option(a[0].t + a[1].t <= int_range(a[0].ty)[1], VInt(a[0].t + a[1].t, a[0].ty)))
         R(["num::checked_sub"], lambda ex, st, fr, c, a, d, r: sym_option(a[0].t - a[1].t >= int_range(a[0].ty)[0], VInt(a[0].t - a[1].t, a[0].ty)))
+        def m_is_multiple_of(ex, st, fr, c, a, d, r):
+            x, y = a[0].t, a[1].t
+            rem = ex.binop(st, "Rem", VInt(x, a[0].ty), VInt(z3.If(y == 0, 1, y), a[0].ty)).t
+            return VBool(z3.If(y == 0, x == 0, rem == 0))
+        R(["num::is_multiple_of"], m_is_multiple_of)
         R(["num::wrapping_add"], lambda ex, st, fr, c, a, d, r: VInt(ex.wrap(a[0].t + a[1].t, a[0].ty), a[0].ty))
         R(["num::wrapping_sub"], lambda ex, st, fr, c, a, d, r: VInt(ex.wrap(a[0].t - a[1].t, a[0].ty), a[0].ty))
         R(["mem::take"], m_mem_take)
@@ -557,6 +562,9 @@ def m_into_iter_any(ex, st, fr, c, a, d, r):
         return m_into_iter_ref(ex, st, fr, c, a, d, r)
     if isinstance(v, VVec):
         return VIter([(None, e) for e in v.elems])
+    if isinstance(v, VMap):
+        cell = VRef(st.alloc(v))
+        return m_map_iter(ex, st, fr, "HashMap::into_iter", [cell], d, r)
     raise Unsupported(f"into_iter on {v}")
 
 
@@ -1151,7 +1159,7 @@ def m_iter_sum(ex, st, fr, c, a, d, r):
 
 
 def m_iter_len(ex, st, fr, c, a, d, r):
-    it = a[0]
+    it = deref_all(st, a[0])
     terms = [z3.If(cond, 1, 0) if cond is not None else z3.IntVal(1) for cond, _ in it.items[it.pos:]]
     return VInt(z3.Sum(terms) if terms else z3.IntVal(0), "usize")
 
@@ -1174,7 +1182,16 @@ def m_arc_deref(ex, st, fr, c, a, d, r):
 
 def m_lock_new(ex, st, fr, c, a, d, r):
     kind = "Mutex" if "Mutex" in c else "RwLock"
-    return VStruct(kind, [a[0], VOpaque("lockname", "anon")])
+    v = a[0]
+    # locks constructed by the code under test get the name of what they protect (the crate's three locks)
+    name = "anon"
+    if isinstance(v, VStruct) and v.name == "IndexState":
+        name = "state"
+    elif isinstance(v, VStruct) and v.name == "WalManager":
+        name = "wal"
+    elif isinstance(v, VMap):
+        name = "pending_intents"
+    return VStruct(kind, [v, VOpaque("lockname", name)])
 
 
 def m_lock(ex, st, fr, c, a, d, r):
